@@ -21,6 +21,7 @@ EXPLANATION = (
     "up by the event's wd with the event's name; (R6) event accessors and Interest constants name the "
     'inotify(7) bits of <linux/inotify.h>. Exact decoding for all record sequences and batchings is not '
     'decided.'
+    ' Also decided: (R4) the padding search predicate is `byte != 0` and the trimmed length is its index + 1; (R7) the Pending arm is the first test of the poll result; the re-read gets a cleared buffer and becomes the state on every path.'
 )
 NOT_DECIDED = "exact decoding for all record sequences and batchings"
 ASSUMPTIONS = ["the kernel writes whole inotify_event records (inotify(7))"]
